@@ -26,13 +26,16 @@ pub(crate) fn update_backtracks<A>(dfa: &mut DFA<StateIdx, A>) {
         #[cfg(lexgen_verif)]
         crate::verif::bt_visit(state.0, backtrack, visited.get(&state).copied());
 
-        // Did we visit the state, with the right backtrack state?
+        // Did we visit the state, with the right backtrack state? The backtrack property only ever
+        // changes from `false` to `true`: once a state is known to be reachable via an accepting
+        // state it stays that way, otherwise the analysis may not terminate and the result
+        // depends on the visiting order.
         match visited.entry(state) {
             Entry::Occupied(mut entry) => {
-                if *entry.get() == backtrack {
+                if *entry.get() || !backtrack {
                     continue;
                 }
-                entry.insert(backtrack);
+                entry.insert(true);
             }
             Entry::Vacant(entry) => {
                 entry.insert(backtrack);
